@@ -988,3 +988,139 @@ func noKillStoreAfter(b *ssa.BasicBlock, ld ssa.Instruction, f *types.Var) bool 
 	}
 	return after
 }
+
+// ---- publish-then-write: an object handed to a shared container under a lock is complete -------
+//
+// A freshly allocated object that is stored into a map or field while a lock is held (that is how the
+// module shares an object between threads: the next holder of the lock can see it) is not written by
+// the same function after that lock has been given up — the reader that found it in the container
+// would race with the write and could see the object half initialised. Instances: every store of a
+// local allocation into a map element / field under a must-held lock; the writes examined are the
+// field stores through the same allocation that can follow the store (without passing the allocation
+// again: a loop creates a new object).
+func cPublishThenWrite(c *Ctx, r *Result, rule string, lfs *LockFlows, pkgs map[string]bool) int {
+	n := 0
+	for _, fn := range c.ModFuncs() {
+		if !pkgs[c.PkgOf(fn)] {
+			continue
+		}
+		lf := lfs.Of(fn)
+		if lf == nil || len(lf.ClassOf) == 0 {
+			continue
+		}
+		key := c.FuncKey(fn)
+		ord := newOrdinals()
+		allocOf := func(v ssa.Value) *ssa.Alloc {
+			for d := 0; d < 4; d++ {
+				switch x := v.(type) {
+				case *ssa.Alloc:
+					if x.Heap {
+						return x
+					}
+					return nil
+				case *ssa.MakeInterface:
+					v = x.X
+				case *ssa.ChangeInterface:
+					v = x.X
+				case *ssa.ChangeType:
+					v = x.X
+				default:
+					return nil
+				}
+			}
+			return nil
+		}
+		allInstrs(fn, func(in ssa.Instruction) {
+			var obj *ssa.Alloc
+			shared := false
+			switch x := in.(type) {
+			case *ssa.MapUpdate:
+				obj = allocOf(x.Value)
+				if u, ok := x.Map.(*ssa.UnOp); ok && u.Op == token.MUL {
+					if fieldVar(u.X) != nil {
+						shared = true
+					} else if _, ok := u.X.(*ssa.Global); ok {
+						shared = true
+					}
+				}
+			case *ssa.Store:
+				obj = allocOf(x.Val)
+				if fieldVar(x.Addr) != nil {
+					if _, local := rootOf(x.Addr).(*ssa.Alloc); !local {
+						shared = true
+					}
+				} else if _, ok := x.Addr.(*ssa.Global); ok {
+					shared = true
+				}
+			}
+			if obj == nil || !shared {
+				return
+			}
+			if _, isStruct := obj.Type().Underlying().(*types.Pointer).Elem().Underlying().(*types.Struct); !isStruct {
+				return
+			}
+			var held []string
+			for p := range lf.ClassOf {
+				if lf.MustHoldPath(in, p, false) {
+					held = append(held, p)
+				}
+			}
+			if len(held) == 0 {
+				return
+			}
+			sort.Strings(held)
+			n++
+			site := ord.key(key, "publish", accessPath(obj))
+			pos := c.Pos(c.InstrPos(in))
+			// instructions that can follow the publication without creating the object anew
+			var late ssa.Instruction
+			seen := map[*ssa.BasicBlock]bool{}
+			var scan func(b *ssa.BasicBlock, from int)
+			scan = func(b *ssa.BasicBlock, from int) {
+				for i := from; i < len(b.Instrs) && late == nil; i++ {
+					x := b.Instrs[i]
+					if x == ssa.Instruction(obj) {
+						return
+					}
+					st, ok := x.(*ssa.Store)
+					if !ok {
+						continue
+					}
+					fa, ok := st.Addr.(*ssa.FieldAddr)
+					if !ok || fa.X != ssa.Value(obj) {
+						continue
+					}
+					stillHeld := false
+					for _, p := range held {
+						if lf.MustHoldPath(x, p, false) {
+							stillHeld = true
+						}
+					}
+					if !stillHeld {
+						late = x
+					}
+				}
+				for _, s := range b.Succs {
+					if !seen[s] && late == nil {
+						seen[s] = true
+						scan(s, 0)
+					}
+				}
+			}
+			b := in.Block()
+			for i, x := range b.Instrs {
+				if x == in {
+					scan(b, i+1)
+				}
+			}
+			if late == nil {
+				r.Instance(rule, site, pos, "ok", "no field of the object is written after the lock under which it was stored is given up", true)
+				return
+			}
+			r.Instance(rule, site, pos, "finding", "written at "+c.Pos(c.InstrPos(late))+" after the lock was given up", true)
+			r.Report(Finding{Rule: rule, Site: site, Pos: pos,
+				Msg: fmt.Sprintf("%s: the new object is stored into a shared container under %v and one of its fields is written afterwards at %s without that lock: a thread that finds the object in the container reads the field while it is written (a data race, and it can see the object before it is complete)", key, held, c.Pos(c.InstrPos(late)))})
+		})
+	}
+	return n
+}
